@@ -1,4 +1,5 @@
 """C06 - V3 handshake: key agreement when genuine, sound rejection otherwise."""
+import asyncio
 from .common import (REAL_BASE, STUB_BASE, Result, Space, rand_bytes, rand_id, codec, SimDeadlock, SimStepLimit)
 from .session import Session, compare_view
 
@@ -54,6 +55,10 @@ def alterations():
     out.append({"name": "genuine_then_push_next_segment", "expect_success": True, "hs_list": [{"post_push": "next"}]})
     out.append({"name": "lost_then_genuine_then_push", "expect_success": True,
                 "hs_list": [{"drop": True}, {"post_push": "same"}]})
+    for how in ("fin", "rst"):
+        for pause in (0.01, 0.5, 3.0):
+            out.append({"name": f"refused_{how}_pause{pause}_then_genuine", "expect_success": True, "refused_first": how,
+                        "pause": pause, "hs_list": [{}]})
     return out
 
 
@@ -109,6 +114,18 @@ def run(plan):
             dev.hs_script = []
             supplied = tok2
         else:
+            if alt.get("refused_first"):
+                # history on this object: an unknown token is refused with an ERROR packet and the unit hangs up;
+                # a moment later the genuine credentials are tried
+                o0 = await s.do({"op": "auth", "cred": "bad_token", "hs": [{"close": True, "rst": alt["refused_first"] == "rst"}]})
+                if o0.kind == "ok":
+                    res.fail("authentication succeeded on a reply that does not prove the key", "refused token")
+                    return
+                if not isinstance(o0.exc, AE):
+                    res.fail(f"authenticate raised {o0.exc_type} (not AuthenticationError)", f"{alt['name']}: {o0.exc!r}")
+                    return
+                await asyncio.sleep(alt.get("pause", 0.5))
+                first_log = len(dev.log)
             op = {"op": "auth"}
             if hs:
                 op["hs"] = [dict(hs) for _ in range(3)]
@@ -150,6 +167,18 @@ def run(plan):
                 return
             if scenario == "stored" and (ac.token, ac.key) != stored:
                 res.fail("previously stored token/key replaced by a failed authentication", f"{alt['name']}")
+                return
+        if o.kind == "ok" and any(x.get("post_push") for x in (alt.get("hs_list") or [])):
+            # the status report the unit pushed right behind its handshake reply was encrypted under the new session
+            # key: it is readable, and is handed out with the next exchange's frames
+            frame = w.ns.command.GetStateCommand().tobytes().hex()
+            o3 = await s.do({"op": "send", "frame": frame, "retries": 1})
+            if o3.kind != "ok":
+                res.fail(f"exchange after a successful handshake raised {o3.exc_type}", f"{alt['name']}: {o3.exc!r}")
+                return
+            if len(o3.value) != 2:
+                res.fail("report pushed right behind the handshake reply was lost",
+                         f"{alt['name']}: the next exchange returned {len(o3.value)} frame(s) instead of report + response")
                 return
         # ---- following refresh
         n0 = len(dev.log)
